@@ -230,6 +230,14 @@ func (r *ConcRun) execOp(t *Task, co *concOp) {
 		}
 	case "renameDataset":
 		_, co.err = h.Dsm.UpdateDataset(op.DS, &server.UpdateDatasetConfig{ID: op.DS2})
+	case "publicNS":
+		// a client declares the public namespaces of a dataset the way the API documents it: it posts the
+		// dataset's meta-entity, with the list, to core.Dataset (another client may be deleting that dataset)
+		ent := h.Dsm.NewDatasetEntity(op.DS, nil, nil, []string{ExE, ExS})
+		if core := h.Dataset("core.Dataset"); core != nil {
+			co.err = core.StoreEntities([]*server.Entity{ent})
+		}
+		r.Stats["public_namespace_posts"]++
 	case "listDatasets":
 		// a client asks for the dataset list while others create, rename and delete datasets
 		_ = h.Dsm.GetDatasetNames()
@@ -937,6 +945,10 @@ func genC07c(g *G, sc *Scenario, tier string) {
 		for _, v := range victims {
 			sc.Tasks = append(sc.Tasks, []Op{{K: "deleteDataset", DS: v}})
 		}
+	}
+	if g.P(0.4) {
+		// another client declares the public namespaces of a dataset that is being deleted
+		sc.Tasks = append(sc.Tasks, []Op{{K: "publicNS", DS: g.Pick(victims)}})
 	}
 	c.Datasets = keep
 	for w := g.Range(1, 2); w > 0; w-- {
